@@ -3,6 +3,8 @@ import Mathlib.Tactic.Linarith
 import Mathlib.Tactic.Ring
 import Mathlib.Tactic.FieldSimp
 import Mathlib.Algebra.Order.Round
+import Mathlib.Analysis.Real.Pi.Bounds
+import Mathlib.Analysis.SpecialFunctions.Trigonometric.Bounds
 import Pymeeus.Gen.R.SunEvents
 /-
 Helper lemmas for the C14 theorems (Props/C14.lean) about the real-number instantiation of
@@ -312,5 +314,86 @@ theorem abs_arcsin_mul_le {l ε : ℝ} (h0 : 0 ≤ ε) (h1 : ε ≤ Real.pi / 2)
 theorem rise_limit_val : rise_limit = 66.55 := by unfold rise_limit; norm_num
 theorem aNeg_rise_limit : aNeg rise_limit = -66.55 := by
   rw [rise_limit_val]; unfold aNeg; exact aReduce_of_abs_lt (by norm_num)
+
+/-! ### check_value of times_rise_transit_set -/
+
+theorem rts_check_step_neg {m : ℝ} (h : m < 0) : rts_check_step m = .inl (m + 1) := by
+  unfold rts_check_step plt
+  have : m < 0.0 := by norm_num; exact h
+  simp only [this, decide_true, Bool.true_or, if_true]
+  norm_num
+
+theorem rts_check_step_gt {m : ℝ} (h : 1 < m) : rts_check_step m = .inl (m - 1) := by
+  unfold rts_check_step plt
+  have h1 : (1.0 : ℝ) < m := by norm_num; exact h
+  have h0 : ¬ m < 0.0 := by norm_num; linarith
+  simp only [h1, h0, decide_true, decide_false, Bool.false_or, if_true, Bool.false_eq_true, if_false]
+  norm_num
+
+theorem rts_check_step_mid {m : ℝ} (h0 : 0 ≤ m) (h1 : m ≤ 1) : rts_check_step m = .inr m := by
+  unfold rts_check_step plt
+  have a : ¬ (1.0 : ℝ) < m := by norm_num; exact h1
+  have b : ¬ m < 0.0 := by norm_num; exact h0
+  simp only [a, b, decide_false, Bool.or_self, Bool.false_eq_true, if_false]
+
+theorem rts_check_loop (n : ℕ) : ∀ m : ℝ, -(n : ℝ) ≤ m → m ≤ n + 1 →
+    ∃ r, loopFuel rts_check_step (n + 1) m = some r ∧ 0 ≤ r ∧ r ≤ 1 ∧ ∃ k : ℤ, r = m + k := by
+  induction n with
+  | zero =>
+    intro m h0 h1
+    norm_num at h0 h1
+    exact ⟨m, by unfold loopFuel; rw [rts_check_step_mid h0 h1], h0, h1, 0, by simp⟩
+  | succ n ih =>
+    intro m hlo hhi
+    push_cast at hlo hhi
+    by_cases hneg : m < 0
+    · obtain ⟨r, hr, r0, r1, k, hk⟩ := ih (m + 1) (by linarith) (by linarith)
+      refine ⟨r, ?_, r0, r1, k + 1, by rw [hk]; push_cast; ring⟩
+      rw [loopFuel, rts_check_step_neg hneg]; exact hr
+    · rw [not_lt] at hneg
+      by_cases hgt : 1 < m
+      · obtain ⟨r, hr, r0, r1, k, hk⟩ := ih (m - 1) (by linarith [Nat.cast_nonneg (α := ℝ) n]) (by linarith)
+        refine ⟨r, ?_, r0, r1, k - 1, by rw [hk]; push_cast; ring⟩
+        rw [loopFuel, rts_check_step_gt hgt]; exact hr
+      · rw [not_lt] at hgt
+        exact ⟨m, by rw [loopFuel, rts_check_step_mid hneg hgt], hneg, hgt, 0, by simp⟩
+
+/-! ### interpolation -/
+
+theorem roundHE_zero {q : ℝ} (h : |q| < 1 / 2) : roundHE q = 0 := by
+  rw [abs_lt] at h
+  unfold roundHE pfloor plt ofInt
+  by_cases h0 : 0 ≤ q
+  · have hf : ⌊q⌋ = 0 := Int.floor_eq_iff.mpr ⟨by simpa using h0, by push_cast; linarith⟩
+    simp only [hf]
+    have : q - ((0 : ℤ) : ℝ) < 1 / 2 := by push_cast; linarith
+    rw [if_pos (by simpa using this)]
+  · rw [not_le] at h0
+    have hf : ⌊q⌋ = -1 := Int.floor_eq_iff.mpr ⟨by push_cast; linarith, by push_cast; linarith⟩
+    simp only [hf]
+    have a : ¬ (q - ((-1 : ℤ) : ℝ) < 1 / 2) := by push_cast; linarith
+    have b : (1 : ℝ) / 2 < q - ((-1 : ℤ) : ℝ) := by push_cast; linarith
+    rw [if_neg (by simpa using a), if_pos (by simpa using b)]
+    norm_num
+
+/-- The angle bound of the season loop in degrees: `arcsin(0.0000025/58)` is below 2.5·10⁻⁶ degree. -/
+theorem season_angle_bound : Real.arcsin (0.0000025 / 58) * (180 / Real.pi) ≤ 0.0000025 := by
+  have hpi := Real.pi_pos
+  have hlo := Real.pi_gt_d2
+  have hhi := Real.pi_lt_d2
+  set c : ℝ := 0.0000025 * (Real.pi / 180) with hc
+  have hc0 : 0 < c := by rw [hc]; positivity
+  have hclo : 0.0000000436 ≤ c := by rw [hc]; nlinarith
+  have hchi : c ≤ 0.000000044 := by rw [hc]; nlinarith
+  have hsin : c - c ^ 3 / 6 < Real.sin c := Real.sin_gt_sub_cube hc0
+  have hc3 : c ^ 3 ≤ 0.000000044 ^ 3 := pow_le_pow_left₀ hc0.le hchi 3
+  have hx : (0.0000025 / 58 : ℝ) ≤ Real.sin c := by
+    have : (0.0000025 / 58 : ℝ) ≤ c - c ^ 3 / 6 := by norm_num at hc3 ⊢; linarith
+    linarith
+  have h1 : Real.arcsin (0.0000025 / 58) ≤ Real.arcsin (Real.sin c) := Real.monotone_arcsin hx
+  rw [Real.arcsin_sin (by linarith) (by linarith)] at h1
+  calc Real.arcsin (0.0000025 / 58) * (180 / Real.pi) ≤ c * (180 / Real.pi) :=
+        mul_le_mul_of_nonneg_right h1 (by positivity)
+    _ = 0.0000025 := by rw [hc]; field_simp
 
 end Pymeeus.Refine.SunEvents
